@@ -427,6 +427,30 @@ pub enum AShade {
     Verts { name: String, pts: Vec<(f32, f32, f32)> },
 }
 
+/// A planar shade given by 10..=14 vertices (real LIDER files carry such shades, e.g. 12 corners): the attribute names
+/// V10, V11, … sort before V2 as text, so the written sequence is only kept by a reader that follows the numbers.
+pub fn many_vertex_shade(rng: &mut Rng, name: String) -> AShade {
+    let n = 10 + rng.usize(5);
+    let (cx, cy, cz) = (rng.dec(-20.0, 20.0, 2), rng.dec(-20.0, 20.0, 2), rng.dec(3.0, 9.0, 2));
+    let a = rng.dec(0.0, 360.0, 0).to_radians();
+    let (ux, uy) = (a.cos(), a.sin());
+    let vertical = rng.chance(0.5);
+    let pts = (0..n)
+        .map(|i| {
+            // an irregular outline around the centre: radius changes from corner to corner
+            let r = rng.dec(1.0, 3.0, 2);
+            let t = (i as f64) * std::f64::consts::TAU / (n as f64);
+            let (p, q) = (r * t.cos(), r * t.sin());
+            if vertical {
+                (r2(cx + p * ux), r2(cy + p * uy), r2(cz + q))
+            } else {
+                (r2(cx + p * ux - q * uy), r2(cy + p * uy + q * ux), r2(cz))
+            }
+        })
+        .collect();
+    AShade::Verts { name, pts }
+}
+
 #[derive(Clone, Debug)]
 pub struct ABuilding {
     pub deviation: f32,
